@@ -175,7 +175,8 @@ def main():
     out = a[a.index('--out') + 1] if '--out' in a else os.path.join(VERIF, 'build/mutsweep/run.jsonl')
     os.makedirs(os.path.dirname(out), exist_ok=True)
     units, fns = units_functions(only)
-    rnd = random.Random(20260927)
+    rnd = random.Random(int(a[a.index('--seed') + 1]) if '--seed' in a else 20260927)
+    skip_files = [a[i + 1] for i, x in enumerate(a) if x == '--skip-done-in']   # earlier result files: their mutants are not repeated
     work = []
     for (file, fn, occ), us in sorted(fns.items()):
         src = open(os.path.join(REPO, file)).read()
@@ -186,8 +187,9 @@ def main():
             work.append((m, us))
     print(f'{len(fns)} functions, {len(work)} mutants', flush=True)
     done = set()
-    if os.path.exists(out):
-        for l in open(out):
+    for sf in skip_files + [out]:
+      if os.path.exists(sf):
+        for l in open(sf):
             try:
                 done.add(json.loads(l)['id'])
             except Exception:
